@@ -133,3 +133,38 @@ let eval_grammar case impl =
       (model, (if ok then [] else [("C02", "-")]) @ (if is_faulty impl then [("C01", "-")] else []))
     end
   | _ -> failwith "bad grammar case"
+
+(* readloop stream: `<hex> <segmentations>`; impl = transcripts joined by '#'.
+   C03: every segmentation gives the same transcript, and its class is the one-shot verdict's. *)
+let eval_readloop case impl =
+  match split_on ' ' case with
+  | [h; _] ->
+    let input = bytes_of_hex h in
+    let v = request_line input in
+    let cls = if v = "INC" then "incomplete" else if v = "REJ" then "rejected" else if is_ok v then "answered" else "fault" in
+    let ts = split_on '#' impl in
+    let first = match ts with t :: _ -> t | [] -> "" in
+    let starts p s = String.length s >= String.length p && String.sub s 0 (String.length p) = p in
+    let icls = if starts "CLOSED" first then "incomplete" else if starts "400," first then "rejected"
+      else if starts "TIMEOUT" first then "timeout" else "answered" in
+    let same = List.for_all (fun t -> t = first) ts in
+    (* the model line: class of the verdict, and "same" for segmentation independence *)
+    ((cls ^ " same"), (if same && icls = cls then [] else [("C03", "-")]))
+  | _ -> failwith "bad readloop case"
+
+(* clientread stream: response bytes under several segmentations through khttp::Client *)
+let eval_clientread case impl =
+  match split_on ' ' case with
+  | [h; _] ->
+    let input = bytes_of_hex h in
+    let v = response_line input in
+    let cls = if v = "INC" then "incomplete" else if v = "REJ" then "rejected" else if is_ok v then "answered" else "fault" in
+    let ts = split_on '#' impl in
+    let first = match ts with t :: _ -> t | [] -> "" in
+    let starts p s = String.length s >= String.length p && String.sub s 0 (String.length p) = p in
+    let icls = if starts "ERR,incomplete" first then "incomplete" else if starts "ERR,rejected" first then "rejected"
+      else if starts "OK," first then "answered" else "other" in
+    let same = List.for_all (fun t -> t = first) ts in
+    let m = cls ^ " same" in
+    ((if icls ^ (if same then " same" else " differs") = m then impl else m), (if same && icls = cls then [] else [("C03", "-")]))
+  | _ -> failwith "bad clientread case"
